@@ -23,9 +23,9 @@ PROP = "C20"
 
 TIERS = {
     "quick": dict(
-        mc=[("Chain_q", 4, 300)],
+        mc=[("Chain_q", 4, 1800)],        # generous: the machines are shared (≈ 13 s when idle)
         random=dict(count=24, steps=300),
-        mc_timeout=300,
+        mc_timeout=1800,
     ),
     "thorough": dict(
         mc=[("Chain", 6, 1500), ("Chain_d4", 6, 1500), ("Chain_d5", 6, 1500)],
@@ -33,7 +33,9 @@ TIERS = {
         mc_timeout=1500,
     ),
 }
-OPS = ["push", "insert", "pop", "remove", "split_to", "split_off", "truncate", "advance", "clear"]
+OPS = ["push", "insert", "pop", "remove", "split_to", "split_off", "truncate", "advance", "clear",
+       "copy_to_bytes", "copy_to_slice", "get_u8", "get_u16"]
+NOARG = ("push", "pop", "clear", "get_u8", "get_u16")
 PROFILES = ["debug", "release"]
 NOTE_RE = re.compile(r'^<<"NOTE", (\d+), (\d+), "([^"]*)">>', re.M)
 REJ_RE = re.compile(r'^<<"REJ", (\d+), (\d+), "([^"]*)">>', re.M)
@@ -232,7 +234,7 @@ def describe(f, expected=None):
         return "\n".join(lines)
     lines.append(f"  initial chunks {json.dumps(f['init'])}")
     for k, o in enumerate(f["ops"], 1):
-        lines.append(f"  {k:3d}. {o['op']}({o['i'] if o['op'] not in ('push', 'pop', 'clear') else ''}"
+        lines.append(f"  {k:3d}. {o['op']}({o['i'] if o['op'] not in NOARG else ''}"
                      f"{json.dumps(o['x']) if o['op'] in ('push', 'insert') else ''})")
     if e.get("ev") == "op":
         for v in ("T", "S"):
@@ -240,6 +242,7 @@ def describe(f, expected=None):
             lines.append(f"  [{'borrowed' if v == 'T' else 'owned'}] before: chunks={t['b']['ch']} len={t['b']['len']}")
             lines.append(f"      {e['op']}(i={e['i']}, x={e['x']}) -> {t['out']}; after: chunks={t['a']['ch']} len={t['a']['len']} "
                          f"remaining={t['a']['rem']} chunk()={t['a']['chunk']} is_empty={t['a']['empty']} "
+                         f"has_remaining={t['a'].get('has')} chunks_vectored={t['a'].get('iov')} "
                          f"read-through-Buf={t['a']['drain']} accessors-that-panicked={t['a']['accp']} returned={t['ret']}")
     elif e:
         lines.append("  event: " + json.dumps(e, sort_keys=True)[:1200])
@@ -349,7 +352,7 @@ def check(prop, tier, seed, replay):
             for p in PROFILES:
                 futures.append(pool.submit(harness_and_judge, "cow", p, cow_args(cow_path), None))
             # the specification keeps its teeth: the model of the pinned code must violate it
-            r = vlib.model_check("Chain", "Chain_pinned", workers=1, timeout=300, coverage=False)
+            r = vlib.model_check("Chain", "Chain_pinned", workers=1, timeout=900, coverage=False)
             if r["violated"] != "ApplyMeetsPost":
                 raise ToolError("Chain_pinned.cfg (model of the pinned defects) no longer violates ApplyMeetsPost")
             log("[mc] Chain_pinned: the model of the pinned defects violates ApplyMeetsPost, as it must")
